@@ -50,10 +50,12 @@ pub fn pseudoprime(p: Uint) -> (r: bool)
     ensures
         uv(p) % 2 == 0 ==> r == (uv(p) == 2),
         bitlen(uv(p)) <= 64 ==> r == is_prime(uv(p)),
+        // never rejects a prime (above 2^64: every Miller round accepts a prime, by Miller's criterion A1)
+        is_prime(uv(p)) ==> r,
 {
-    broadcast use axiom_borrow_ref;
     // Montgomery arithmetic is only for odd numbers.
     if !p.bit(0) {
+        proof { if uv(p) > 2 { lemma_even_not_prime(uv(p)); } }
         return ol_uint_eq_u64(p, 2_u64);
     }
     if p.bits() <= 64 {
@@ -61,54 +63,163 @@ pub fn pseudoprime(p: Uint) -> (r: bool)
         return isprime64(p.low_u64());
     }
     pub fn pow_mod(zp: &ZmodN, x: MInt, exp: &Uint) -> (res: MInt)
-        requires zp.wf(), x.val() < zp.nval(),
+        requires zp.wf(), zp.nval() >= 3, x.val() < zp.nval(),
         ensures res.val() < zp.nval(),
+            forall|xv: nat| grep(x.val(), xv, zp.nval(), zp.rr())
+                ==> grep(res.val(), pow_mod_spec(xv, uv(*exp), zp.nval()), zp.nval(), zp.rr()),
     {
-        broadcast use axiom_borrow_ref;
+        let ghost x0 = x;
+        let ghost nn = zp.nval();
+        let ghost rr = zp.rr();
+        let ghost ee = 64 * zp.kval();
+        let ghost ev = uv(*exp);
+        // the residue x stands for (unique when it exists)
+        let ghost has = exists|v: nat| grep(x0.val(), v, nn, rr);
+        let ghost xv: nat = choose|v: nat| grep(x0.val(), v, nn, rr);
         let mut res = zp.one();
         let mut x = x;
-        proof { zp.lemma_wf_r(); }
+        proof {
+            zp.lemma_wf_r();
+            lemma_grep_one(nn, rr, ee, res.val());
+            lemma2_to64();
+            if has {
+                lemma_small_mod(1, nn);
+                lemma_mul_one(xv as int);
+                lemma_small_mod(xv, nn);
+                assert(pow_mod_spec(xv, 1, nn) == (xv * pow_mod_spec(xv, 0, nn)) % nn);
+            }
+        }
         for b in 0..exp.bits()
             invariant zp.wf(), res.val() < zp.nval(), x.val() < zp.nval(),
+                nn == zp.nval(), rr == zp.rr(), ee == 64 * zp.kval(), ev == uv(*exp), nn >= 3, nn % 2 == 1, rr == pow2(ee),
+                has ==> grep(res.val(), pow_mod_spec(xv, ev % pow2(b as nat), nn), nn, rr)
+                    && grep(x.val(), pow_mod_spec(xv, pow2(b as nat), nn), nn, rr),
         {
             proof { broadcast use axiom_borrow_ref; }
+            let ghost res0 = res;
+            let ghost xm = x;
             if exp.bit(b) {
                 res = zp.mul(&res, &x);
             }
             x = zp.mul(&x, &x);
+            proof {
+                if has {
+                    let lo = ev % pow2(b as nat);
+                    let vr = pow_mod_spec(xv, lo, nn);
+                    let vx = pow_mod_spec(xv, pow2(b as nat), nn);
+                    lemma_low_bits_step(ev, b as nat);
+                    lemma_grep_mul(xm.val(), vx, xm.val(), vx, x.val(), nn, rr, ee);
+                    lemma_pms_pow2_step(xv, b as nat, nn);
+                    if (ev / pow2(b as nat)) % 2 == 1 {
+                        lemma_grep_mul(res0.val(), vr, xm.val(), vx, res.val(), nn, rr, ee);
+                        lemma_pms_add(xv, lo, pow2(b as nat), nn);
+                    }
+                }
+            }
+        }
+        proof {
+            lemma_bitlen_bound(ev, bitlen(ev));
+            lemma_small_mod(ev, pow2(bitlen(ev)));
+            assert forall|v: nat| grep(x0.val(), v, nn, rr) implies grep(res.val(), pow_mod_spec(v, ev, nn), nn, rr) by {
+                lemma_grep_inj(x0.val(), v, x0.val(), xv, nn, rr, ee);
+            }
         }
         res
     }
 
     let zp = ZmodN::new(p);
+    let ghost pn = uv(p);
+    let ghost rr = zp.rr();
+    let ghost ee = 64 * zp.kval();
     proof {
         // p is odd with more than 64 bits: its low word is odd, and every base is below p
         lemma_bits_gt64(p);
         lemma_low_word_odd(uv(p));
         zp.lemma_wf_r();
     }
+    let ghost low = (pn % W()) as u64;
     let s = (p.low_u64() - 1).trailing_zeros();
-    proof { axiom_buint_shr_u32(p, s); }
+    proof {
+        axiom_buint_shr_u32(p, s);
+        lemma_miller_decomp_big(pn, low, s);
+    }
     let p_odd = p >> s;
+    let ghost dd = uv(p_odd);
     for verif_r_b in 0..fbase::SMALL_PRIMES.len()
-        invariant zp.wf(), zp.nval() == uv(p), uv(p) >= 0x1_0000_0000_0000_0000, s <= 64,
-            bitlen(uv(p)) > 64, uv(p) % 2 == 1,
+        invariant zp.wf(), zp.nval() == uv(p), uv(p) >= 0x1_0000_0000_0000_0000, 1 <= s <= 64,
+            bitlen(uv(p)) > 64, uv(p) % 2 == 1, pn == uv(p), rr == zp.rr(), ee == 64 * zp.kval(), rr == pow2(ee),
+            dd == uv(p_odd), dd > 0, (pn - 1) as nat == dd * pow2(s as nat),
     {
         let b = fbase::SMALL_PRIMES[verif_r_b];
         proof { broadcast use axiom_borrow_ref; fbase::lemma_small_primes_elems(verif_r_b as int); zp.lemma_wf_r(); }
+        let ghost bn = b as nat;
         let mut pow = pow_mod(&zp, zp.from_int(b.into()), &p_odd);
         let pm1 = zp.sub(&zp.zero(), &zp.one());
+        let ghost v0 = mchain(bn, dd, pn, 0);
+        let ghost onev = zp.r_val();
+        proof {
+            lemma_small_mod(bn, pn);
+            assert(grep(((bn * rr) % pn) as nat, bn, pn, rr));
+            assert(pow2n(0) == 1);
+            lemma_mul_one(dd as int);
+            lemma_grep_one(pn, rr, ee, onev);
+            // pm1 = (0 - one) mod p = p - one
+            lemma_cong_add_multiple(-(onev as int), 1, pn as int);
+            lemma_mul_one(pn as int);
+            lemma_small_mod((pn - onev) as nat, pn);
+            assert(pm1.val() == (pn - onev) as nat);
+            lemma_grep_inj(pow.val(), v0, onev, 1, pn, rr, ee);
+            lemma_grep_inj(pow.val(), v0, pm1.val(), (pn - 1) as nat, pn, rr, ee);
+            assert forall|o: MInt| (#[trigger] o.val() == pow.val()) == (o == pow) by { MInt::lemma_val_inj(o, pow); }
+        }
         let mut ok = pow == zp.one() || pow == pm1;
+        let ghost mut jj: nat = 0;
+        let ghost mut fin = false;
+        let ghost mut gv: nat = v0;
         for verif_it in 0..s
-            invariant zp.wf(), pow.val() < zp.nval(),
+            invariant_except_break
+                !fin,
+            invariant zp.wf(), pow.val() < zp.nval(), zp.nval() == pn, rr == zp.rr(), rr == pow2(ee), pn >= 3, pn % 2 == 1,
+                onev == zp.r_val(), pm1.val() == (pn - onev) as nat, grep(onev, 1, pn, rr), grep(pm1.val(), (pn - 1) as nat, pn, rr),
+                v0 == mchain(bn, dd, pn, 0),
+                fin ==> ok == (v0 == 1 || mwit(bn, dd, pn, s as nat)),
+                !fin ==> jj == verif_it as nat && gv == mchain(bn, dd, pn, jj) && grep(pow.val(), gv, pn, rr)
+                    && ok == (v0 == 1 || mwit(bn, dd, pn, jj)),
+            ensures
+                fin || jj == s as nat,
         {
             proof { broadcast use axiom_borrow_ref; }
+            let ghost pow0 = pow;
             pow = zp.mul(&pow, &pow);
+            proof {
+                lemma_grep_mul(pow0.val(), gv, pow0.val(), gv, pow.val(), pn, rr, ee);
+                lemma_mchain_next(bn, dd, pn, jj);
+                gv = (gv * gv) % pn;
+                jj = jj + 1;
+                lemma_grep_inj(pow.val(), gv, pm1.val(), (pn - 1) as nat, pn, rr, ee);
+                lemma_grep_inj(pow.val(), gv, onev, 1, pn, rr, ee);
+                assert forall|o: MInt| (#[trigger] o.val() == pow.val()) == (o == pow) by { MInt::lemma_val_inj(o, pow); }
+            }
             if pow == pm1 {
                 ok = true;
+                proof {
+                    lemma_mwit_mono(bn, dd, pn, jj, s as nat);
+                    fin = true;
+                }
                 break;
             } else if pow == zp.one() {
+                proof {
+                    lemma_mchain_one(bn, dd, pn, jj, s as nat);
+                    fin = true;
+                }
                 break;
+            }
+        }
+        proof {
+            // ok == (V'_0 == 1 || some V'_r == -1, r <= s); a prime passes (A1 + the shift lemma)
+            if is_prime(pn) {
+                axiom_miller(pn, bn);
+                lemma_sprp_shift(pn, bn, dd, s as nat);
             }
         }
         if !ok {
